@@ -39,6 +39,8 @@ use tachys::view::any_view::{AnyView, IntoAny};
 enum NodeH {
     Sig(RwSignal<i64>),
     Memo(Memo<i64>),
+    /// the `index` of a `<ForEnumerate>` row
+    Idx(ReadSignal<usize>),
 }
 
 /// the handles of the component-local signals created so far: (scope id, keys of the enclosing rows, handle)
@@ -73,6 +75,7 @@ fn get_node(h: Option<&NodeH>) -> i64 {
     match h {
         Some(NodeH::Sig(s)) => s.get(),
         Some(NodeH::Memo(m)) => m.get(),
+        Some(NodeH::Idx(i)) => i.get() as i64,
         None => 0,
     }
 }
@@ -197,6 +200,24 @@ fn realise(v: &Arc<ViewD>, cx: &Ctx) -> AnyView {
             }
             .into_any()
         }
+        ViewD::ForE(sel, lists, row) => {
+            let (cx1, sel, lists) = (cx.clone(), sel.clone(), lists.clone());
+            let (cx2, row) = (cx.clone(), Arc::new((**row).clone()));
+            view! {
+                <ForEnumerate
+                    each=move || lists[for_index(eval(&cx1, &sel), lists.len())].clone()
+                    key=|k| *k
+                    children={move |index: ReadSignal<usize>, k: u32| {
+                        let mut cx = cx2.clone();
+                        cx.locals = vec![NodeH::Idx(index)];
+                        cx.key = k as i64;
+                        cx.path.push(k);
+                        view! { <li>{k.to_string()}{realise(&row, &cx)}</li> }
+                    }}
+                />
+            }
+            .into_any()
+        }
         ViewD::Scope(sid, d, kid) => {
             // the component body runs NOW (view construction), under the current owner
             let h = match d {
@@ -214,6 +235,19 @@ fn realise(v: &Arc<ViewD>, cx: &Ctx) -> AnyView {
             let mut cx2 = cx.clone();
             cx2.locals.push(h);
             realise(&Arc::new((**kid).clone()), &cx2)
+        }
+        ViewD::Eb(kid) => {
+            let (cx2, kid) = (cx.clone(), Arc::new((**kid).clone()));
+            view! {
+                <ErrorBoundary fallback=|_errors| "error".to_string()>
+                    {realise(&kid, &cx2)}
+                </ErrorBoundary>
+            }
+            .into_any()
+        }
+        ViewD::Res(c, x) => {
+            let (cx, c, x) = (cx.clone(), c.clone(), x.clone());
+            (move || if eval(&cx, &c) != 0 { Err::<String, HxErr>(HxErr) } else { Ok(eval(&cx, &x).to_string()) }).into_any()
         }
         ViewD::Susp(x, a) => {
             let (cx1, x) = (cx.clone(), x.clone());
@@ -751,16 +785,58 @@ fn view_ok_at(v: &ViewD, n: usize, d: usize, r: bool) -> bool {
         }
         ViewD::For(sel, _) => expr_ok(sel, n, d, r),
         ViewD::ForR(sel, _, row) => expr_ok(sel, n, d, r) && view_ok_at(row, n, 0, true),
+        ViewD::ForE(sel, _, row) => expr_ok(sel, n, d, r) && view_ok_at(row, n, 1, true),
         ViewD::Scope(_, LDef::Memo(b), kid) => expr_ok(b, n, d, r) && view_ok_at(kid, n, d + 1, r),
         ViewD::Scope(_, LDef::Sig(_), kid) => view_ok_at(kid, n, d + 1, r),
         ViewD::Susp(e, a) | ViewD::Errb(e, a) => reads_below(e, n) && view_ok_at(a, n, 0, false),
+        ViewD::Eb(k) => view_ok_at(k, n, d, r),
+        ViewD::Res(c, e) => expr_ok(c, n, d, r) && expr_ok(e, n, d, r),
     }
+}
+
+/// runs `gen::EB_PROBES` on the real code: `true` iff no line carries a failing verdict
+fn probe_eb() -> bool {
+    let mut live: Option<Live> = None;
+    let mut ok = true;
+    for line in hx_c04::gen::EB_PROBES.lines() {
+        if line.starts_with("case ") {
+            if let Some(mut l) = live.take() {
+                let _ = catch_unwind(AssertUnwindSafe(|| {
+                    drop(l.handle.take());
+                    sched::reset();
+                    l.outer.cleanup();
+                }));
+            }
+            live = Some(Live::new());
+            continue;
+        }
+        let Some(l) = live.as_mut() else { continue };
+        match catch_unwind(AssertUnwindSafe(|| l.step(line))) {
+            Ok(s) => {
+                if s.contains("## fail") || s.contains("bad-op") {
+                    ok = false
+                }
+            }
+            Err(_) => {
+                ok = false;
+                break;
+            }
+        }
+    }
+    if let Some(mut l) = live.take() {
+        let _ = catch_unwind(AssertUnwindSafe(|| drop(l.handle.take())));
+    }
+    sched::reset();
+    ok
 }
 
 fn main() {
     match parse_cli() {
         Cmd::Gen { seed, n, ops, tier } => {
-            let text = hx_c04::gen::generate(seed, n, &tier);
+            // which class of error boundaries the implementation at hand gets right (see `gen::eview`)
+            quiet_panics();
+            let eb_full = probe_eb();
+            let text = hx_c04::gen::generate(seed, n, &tier, eb_full);
             std::fs::write(&ops, text).expect("write ops");
         }
         Cmd::Run { ops, out } => {
